@@ -521,6 +521,28 @@ def generate(rng, tier, outdir):
         if opt is not None and Fraction(opt) > 1024:
             w.count("large.optimum_above_default_and_below_limit", Fraction(opt) <= Fraction(mg))
 
+    # ---- corpus "repeat": a gate REPEATED on one qubit pair (the second application finds both qubits in one subcircuit already),
+    # then a gate to a third qubit, optionally one more gate; wire cuts only and wire+gate cuts; tight W; unrestricted search.
+    # (the class of seeded change C08-r4-1: ApplyGate inside one subcircuit must yield a NEW state, or the CutBothWires sibling skips
+    # the following gate and an overhead below every feasible choice is reported) ----
+    rep = []
+    for k1, k2 in (("cx", "cx"), ("cx", "swap"), ("swap", "cx")):
+        for third in (("cx", 0, 2), ("cx", 1, 2), ("cx", 2, 0)):
+            for fourth in (None, ("cx", 0, 1), ("cx", 1, 0), ("swap", 1, 2)):
+                gl = [(k1, 0, 1), (k2, 0, 1), third] + ([fourth] if fourth else [])
+                rep.append((3, gl, 2))
+    rep += [(4, [("cx", 0, 1), ("cx", 0, 1), ("cx", 1, 2), ("cx", 2, 3), ("cx", 0, 1)], 3),
+            (4, [("cx", 0, 1), ("swap", 0, 1), ("cx", 0, 2), ("cx", 0, 3), ("cx", 1, 0)], 3),
+            (4, [("cx", 0, 1), ("cx", 1, 0), ("cx", 0, 1), ("cx", 1, 2), ("cx", 2, 3)], 2),
+            (4, [("swap", 2, 3), ("cx", 2, 3), ("cx", 3, 1), ("cx", 1, 0), ("cx", 2, 3)], 2)]
+    for k, (nq, gl, W) in enumerate(rep):
+        ops = [dict(name=n, qs=[a, b]) for n, a, b in gl]
+        for j, lo in enumerate(((False, True), (True, True))):
+            if quick and j == 1 and k % 2:
+                continue
+            emit("repeat", dict(nq=nq, ops=ops, W=W, gate_lo=lo[0], wire_lo=lo[1], max_gamma=(1024 if k % 3 else 10.0 ** 9),
+                                max_backjumps=None, seeds=[k % 7, None]))
+
     # ---- limits below the optimum on purpose: small circuits with max_gamma in {1, 2} (the F3 trigger, found afresh) ----
     pool34 = [c for g in (3, 4) for c in small_circuits(g)]
     for k in range(150 if quick else 1500):
@@ -599,6 +621,8 @@ def generate(rng, tier, outdir):
              "meets every limit, 2 seeds (1 seed for 4 gates and for 3 gates in the quick tier); searches beyond the model-evaluation budget are judged by the oracle only; "
              "(2a) limits far above the built-in default 1024: 4 fixed circuits with optimal gamma 3087..16807 and random circuits on 3-4 qubits with 5-6 gates "
              "from {cx, swap, iswap}, W in {1,2}, max_gamma in %s, no backjump limit, 2 seeds incl. None, through the public find_cuts; "
+             "(2a') corpus 'repeat': 40 circuits with a gate repeated on one qubit pair followed by a gate to a third qubit (3-5 gates, 3-4 qubits), "
+             "wire cuts only and wire+gate cuts, W = 2 or 3, unrestricted search, 2 seeds incl. None; "
              "(2b) random circuits of that space with 3-4 gates, W < n, max_gamma in {1,2} (limits below the optimum on purpose); "
              "(3) random circuits on 2..6 qubits with 1..7 two-qubit gates (idle qubits, arbitrary first use, one-qubit gates; half of them also "
              "with partial/full barriers, opaque 2-qubit non-Gate instructions, cz/iswap (equal gammas) and rzz(0) of gamma 1; W occasionally n+1), max_gamma in %s "
